@@ -35,7 +35,7 @@ def ledger_moves_inconsistent(reals, scs):
     return sorted(delta('collected_protocol_fees')) != sorted(z + [prot]) or sorted(delta('all_time_collected_protocol_fees')) != sorted(z + [prot]) or sorted(delta('all_time_burned_fees')) != sorted(z + [burn]) or burned_msgs != burn
 
 
-def pair_swap(ck, prog, cfg, oi):
+def pair_swap(ck, prog, cfg, oi, tag=''):
     """bookkeeping of a swap against the amounts compute_swap reports (compute_swap itself: C02 / C03)."""
     kinds = KIND_CFGS[cfg]; ai = 1 - oi
     SCN = 'terraswap_pair::helpers::SwapComputation'
@@ -44,7 +44,7 @@ def pair_swap(ck, prog, cfg, oi):
         return OK(it.mk(SCN, return_amount=U128(x.sym('sc_ret', 120)), spread_amount=U128(x.sym('sc_spread', 120)),
                         swap_fee_amount=U128(x.sym('sc_swap', 120)), protocol_fee_amount=U128(x.sym('sc_prot', 120)),
                         burn_fee_amount=U128(x.sym('sc_burn', 120))))
-    paths = ck.explore(prog, swap_body(kinds, oi), 'pair.swap.%s.o%d' % (cfg, oi), validate=False,
+    paths = ck.explore(prog, swap_body(kinds, oi), 'pair.swap.%s.o%d%s' % (cfg, oi, tag), validate=False,
                        stubs={'terraswap_pair::helpers::compute_swap': stub_cs})
     n = 0
     ret, prot, burn = z3.Int('sc_ret'), z3.Int('sc_prot'), z3.Int('sc_burn')
@@ -54,7 +54,7 @@ def pair_swap(ck, prog, cfg, oi):
         st = p.extra['st']; f, at, ab = st['f'], st['at'], st['ab']
         eff = effects(resp_of(p), PAIR); A = aname(kinds, ai)
         nf = ledger_after(p, 'collected_protocol_fees'); nat = ledger_after(p, 'all_time_collected_protocol_fees'); nab = ledger_after(p, 'all_time_burned_fees')
-        sfx = '%s.o%d' % (cfg, oi)
+        sfx = '%s.o%d%s' % (cfg, oi, tag)
         nice = [z3.Int('b0') == 10 ** 12 + (10 ** 9 if oi == 0 else 0), z3.Int('b1') == 10 ** 12 + (10 ** 9 if oi == 1 else 0), z3.Int('f0') == 10 ** 6, z3.Int('f1') == 10 ** 6, z3.Int('offer') == 10 ** 9,
                 z3.Int('fee_protocol') == 10 ** 15, z3.Int('fee_swap') == 2 * 10 ** 15, z3.Int('fee_burn') == 10 ** 15, z3.Int('max_spread') == 5 * 10 ** 17, z3.Int('S') == 10 ** 12] + \
                [z3.Int(n) == 7 * 10 ** 6 for n in ('at0', 'at1', 'ab0', 'ab1')]
@@ -66,6 +66,18 @@ def pair_swap(ck, prog, cfg, oi):
         ck.oblige('C07.pair.swap.transfer.' + sfx, p, z3.Or(total(eff, 'send', A) != ret, len([e for e in eff if e.kind not in ('send', 'burn')]) != 0,
                                                            any(not same(e.asset, A) for e in eff)), 'nothing else moves: one transfer of the net return, one burn')
     ck.require(n >= 1, 'pair swap (stubbed kernel): no Ok path')
+
+
+DENOM_SHAPES = ['factory/migaloo1creatoraddr/ampwhale', 'ibc/27394FB092D2ECCD56123C74F36E4C1F926001CEADA9CA97EA622B25F41E5EB2']
+
+
+def with_denoms(names, fn):
+    """run fn with the pool's two native assets named `names` (token-factory / ibc shaped denoms): burn and transfer handling must not depend on
+    the shape of a denom."""
+    import lib_pool
+    old = list(lib_pool.NAMES['native']); lib_pool.NAMES['native'][:] = names
+    try: return fn()
+    finally: lib_pool.NAMES['native'][:] = old
 
 
 def pair_collect(ck, prog, cfg):
@@ -147,6 +159,8 @@ def main():
         for oi in ois: pair_swap(ck, prog, cfg, oi)
         pair_collect(ck, prog, cfg)
     pair_other_ops(ck, prog, 'nc')
+    # token-factory and ibc shaped denoms as the pool's native assets, each of them once as the ask (= charged and burned) asset
+    for oi in (0, 1): with_denoms(DENOM_SHAPES, lambda: (pair_swap(ck, prog, 'nn', oi, tag='.shapes'), pair_collect(ck, prog, 'nn') if oi == 0 else None))
     progv = ck.program('vault', 'white_whale_std')
     for kind in ('native', 'cw20'): vault_checks(ck, progv, kind)
     try:
@@ -154,7 +168,7 @@ def main():
         c07_trio.run(ck)
     except ImportError:
         ck.outside.append('three-asset pool part not built')
-    ck.bounds.update(pools='pair: native/native, native/cw20 (both directions), cw20/cw20; vault: native and cw20', widths='all amounts full u128',
+    ck.bounds.update(pools='pair: native/native, native/cw20 (both directions), cw20/cw20, + native/native with a token-factory and an ibc shaped denom (both directions); vault: native and cw20', widths='all amounts full u128',
                      kernel='swap bookkeeping is checked against a symbolic SwapComputation (compute_swap stubbed); the kernel itself is C02/C03')
     ck.outside.append('that BankMsg::Burn / cw20 Burn really destroy supply (chain model)')
     return ck.finish()
